@@ -228,9 +228,9 @@ func checkC01(e *world.Env, conns []*c01Conn, ops []*world.Op) {
 		if s.ev.Arg != wantArg {
 			e.Fail("C01/handler-input-differs", "op %s (%s): handler saw %q, sent %q", op.Tag, cellInfo, s.ev.Arg, wantArg)
 		}
-		wantSess := c.sa.LocalAddr().String()
+		wantSess := world.SessKey(c.sb)
 		if !op.ToSrv {
-			wantSess = c.sb.LocalAddr().String()
+			wantSess = world.SessKey(c.sa)
 		}
 		if s.ev.Sess != wantSess {
 			e.Fail("C01/handled-on-wrong-session", "op %s (%s): handled on session %s, sent on %s", op.Tag, cellInfo, s.ev.Sess, wantSess)
